@@ -6,8 +6,8 @@ import struct
 
 from .. import AnalysisError
 from ..engine import rule
-from ..flow import PRUNE, Violation, explore, path_ends, path_is, prov_has, \
-    provenance, store_value, strip_not
+from ..flow import PRUNE, Violation, explore, implied_atoms, path_ends, \
+    path_is, prov_has, provenance, store_value, strip_not
 from ..locks import POOL_WRITE, explore_locksets
 from ..model import ClassInfo, External, FunctionInfo, dotted, mangle, \
     walk_local
@@ -882,3 +882,85 @@ def r8(R):
         for v in vs:
             R.violation(v.node, v.message, g, v.path)
     R.require(n >= 2, 'tpc_finish implementations not found')
+
+
+# ------------------------------------------------------------------ C04.R9
+ITER_CLASSES = ('ZODB.FileStorage.FileStorage.FileIterator',
+                'ZODB.FileStorage.FileStorage.TransactionRecordIterator',
+                'ZODB.FileStorage.FileStorage.UndoSearch',
+                'ZODB.FileStorage.FileStorage.TransactionRecord')
+
+
+@rule('C04.R9', 'what an iterator over the committed history returns is '
+      'bound on every path that reaches the return (definite assignment '
+      'of returned locals)', props=['C17'], min_instances=3)
+def r9(R):
+    n = 0
+    for q in ITER_CLASSES:
+        cls = R.prog.cls(q)
+        for name, f in sorted(cls.methods.items()):
+            rets = [r for r in walk_local(f.node) if isinstance(
+                r, ast.Return) and r.value is not None]
+            names = {x.id for r in rets for x in ast.walk(r.value)
+                     if isinstance(x, ast.Name) and isinstance(
+                         x.ctx, ast.Load)}
+            g, b, F = R.cfg(f, cls, max_depth=0)
+            locals_ = set(b.local_defs(f)) - set(f.params)
+            tracked = frozenset(names & locals_)
+            if not tracked:
+                continue
+            n += 1
+            R.instance('%s.%s returns %s' % (cls.name, name,
+                                             ', '.join(sorted(tracked))))
+
+            def edge(node, st, lab, tgt, F=F, tracked=tracked):
+                assigned, facts = st
+                if node.kind == 'test' and lab in ('T', 'F'):
+                    # light path sensitivity: `x == c` / `x != c` facts, so
+                    # that `if s != 'u': r = ...` followed by
+                    # `if s == 'u': continue` is understood
+                    for e, truth in implied_atoms(node.ast, lab):
+                        if isinstance(e, ast.Compare) and len(e.ops) == 1 \
+                                and isinstance(e.ops[0], (ast.Eq, ast.NotEq)) \
+                                and isinstance(e.comparators[0], ast.Constant):
+                            key = (ast.unparse(e.left),
+                                   repr(e.comparators[0].value))
+                            eq = isinstance(e.ops[0], ast.Eq) == truth
+                            if (key, not eq) in facts:
+                                return PRUNE
+                            facts = facts | {(key, eq)}
+                if lab in ('e', 'eb'):
+                    return (assigned, facts)
+                for op in F.ops(node):
+                    if op.kind in ('store', 'aug') and op.path and \
+                            op.path[0] == '%local':
+                        nm = op.path[1]
+                        if nm in tracked:
+                            assigned = assigned | {nm}
+                        facts = frozenset(
+                            (k, v) for k, v in facts
+                            if not (k[0] == nm or k[0].startswith(nm + '.')))
+                return (assigned, facts)
+
+            def at(node, st, tracked=tracked, f=f):
+                if node.kind == 'return' and node.frame.parent is None and \
+                        node.ast.value is not None:
+                    used = {x.id for x in ast.walk(node.ast.value)
+                            if isinstance(x, ast.Name)} & tracked
+                    missing = used - st[0]
+                    if missing:
+                        return Violation(
+                            '`%s` is returned on a path on which it was '
+                            'never assigned (UnboundLocalError at run time): '
+                            'for the inputs that take this path -- e.g. a '
+                            'transaction with status "u" -- the history '
+                            'cannot be iterated or copied at all' %
+                            ', '.join(sorted(missing)))
+                return st
+
+            vs, stats = explore(g, (frozenset(), frozenset()), at=at,
+                                edge=edge)
+            R.count(stats)
+            for v in vs:
+                R.violation(v.node, v.message, g, v.path)
+    R.require(n >= 3, 'iterator classes not found')
